@@ -734,6 +734,10 @@ def round14_entries():
                 ['call void @g() align=8', 'invoke void @g() align=8 nounwind', 'callbr void asm "", ""() align=2']))
     # `no_cfi` in front of a global VARIABLE (LLVM accepts any global value there)
     out.append(("no_cfi.global-variable", '@g = global i32 0\n@p = global i32* no_cfi @g\n@q = global i32* getelementptr (i32, i32* no_cfi @g, i64 1)\n', ['@p = global i32* no_cfi @g', 'getelementptr (i32, i32* no_cfi @g, i64 1)']))
+    # operands of allocsize / vscale_range of 2^63 and more (not LLVM — the operands are 32-bit there — but accepted by the parser: what is printed must be read again)
+    for a in ("allocsize(9223372036854775808)", "allocsize(0, 9223372036854775808)", "allocsize(18446744073709551615)", "allocsize(18446744073709551614, 1)",
+              "vscale_range(1, 9223372036854775808)", "vscale_range(9223372036854775808, 1)", "vscale_range(9223372036854775808)"):
+        out.append(("attr-operand-wide." + a, "declare void @f() %s\n" % a, [a]))
     # the EMPTY comdat name (`$""`, accepted by LLVM too): printed quoted — `$` alone is not a token
     out.append(("comdat.empty-name", '$"" = comdat any\n\n@x = global i32 0, comdat($"")\n', ['$"" = comdat any', '@x = global i32 0, comdat($"")']))
     # numbered type definitions among names that sort below the digits, between them and above them
